@@ -417,6 +417,11 @@ func parseString(p *peeker) (node, hcl.Diagnostics) {
 			errEndPos := errPos
 			errEndPos.Byte++
 			errEndPos.Column++
+			if errEndPos.Byte > tok.Range.End.Byte {
+				// The error is at the very end of the token (for example an
+				// unterminated string), so there is no character to mark.
+				errEndPos = errPos
+			}
 
 			errRange = hcl.Range{
 				Filename: tok.Range.Filename,
